@@ -97,7 +97,22 @@ class Scheduler(object):
                 raise Deadlock("all live threads are blocked")
             return None
         if cur is not None and cur in ready:
-            if len(ready) == 1 or self.ci >= len(self.choices):
+            if len(ready) == 1 or not self.choices:
+                return cur
+            if self.policy is not None:
+                # a kind that never switches does not use up the choice sequence, and the
+                # sequence is read cyclically: the end of a long workload is explored like its start
+                kind = what.split(":", 1)[0]
+                pct = self.policy.get(kind, self.policy.get("call", 0))
+                if pct <= 0:
+                    return cur
+                c = self.choices[self.ci % len(self.choices)]
+                self.ci += 1
+                others = [t for t in ready if t != cur]
+                if c % 100 < pct:
+                    return others[(c // 100) % len(others)]
+                return cur
+            if self.ci >= len(self.choices):
                 return cur
             c = self.choices[self.ci]
             self.ci += 1
@@ -115,6 +130,23 @@ class Scheduler(object):
             self.ci += 1
             return ready[c % len(ready)]
         return ready[0]
+
+    def decide(self, what):
+        """A yes/no decision taken from the choice sequence (percentage per kind with a policy,
+        every third value otherwise); False when the sequence is used up."""
+        with self.cv:
+            if self.policy is not None:
+                pct = self.policy.get(what, 0)
+                if pct <= 0 or not self.choices:
+                    return False
+                c = self.choices[self.ci % len(self.choices)]
+                self.ci += 1
+                return c % 100 < pct
+            if self.ci >= len(self.choices):
+                return False
+            c = self.choices[self.ci]
+            self.ci += 1
+            return c % 3 == 2
 
     def yield_point(self, what=""):
         tid = self.tid()
@@ -154,21 +186,30 @@ class Scheduler(object):
 
 
 class SchedLock(object):
-    """Re-entrant lock with the semantics of threading.RLock, cooperating with the scheduler."""
+    """A lock with the semantics of the lock it replaces - threading.RLock (re-entrant, only the
+    owner may release) or threading.Lock (not re-entrant, anybody may release) - cooperating with
+    the scheduler.  The harness owns time: an acquire with a finite timeout that finds the lock
+    taken may be made to time out (return False), as the choice sequence decides."""
 
-    def __init__(self, sched):
+    def __init__(self, sched, reentrant=True):
         self.sched = sched
+        self.reentrant = reentrant
         self.owner = None
         self.count = 0
         self.waiters = []
-        self._real = threading.RLock()
+        self.timeouts = 0
+        self._real = threading.RLock() if reentrant else threading.Lock()
 
     def acquire(self, blocking=True, timeout=-1):
         tid = self.sched.tid()
         if tid is None:
             return self._real.acquire(blocking, timeout)
         self.sched.yield_point("lock-acquire")
-        while self.owner is not None and self.owner != tid:
+        finite = (not blocking) or (timeout is not None and timeout >= 0)
+        while self.owner is not None and not (self.reentrant and self.owner == tid):
+            if finite and (not blocking or self.sched.decide("lock-timeout")):
+                self.timeouts += 1
+                return False
             if tid not in self.waiters:
                 self.waiters.append(tid)
             self.sched.block(tid)
@@ -182,11 +223,21 @@ class SchedLock(object):
         tid = self.sched.tid()
         if tid is None:
             return self._real.release()
-        self.count -= 1
+        if self.reentrant:
+            if self.owner != tid:
+                raise RuntimeError("cannot release un-acquired lock")
+            self.count -= 1
+        else:
+            if self.owner is None:
+                raise RuntimeError("release unlocked lock")
+            self.count = 0          # a plain lock has no owner: anybody's release frees it
         if self.count == 0:
             self.owner = None
             self.sched.unblock(list(self.waiters))
             self.sched.yield_point("lock-release")
+
+    def locked(self):
+        return self.owner is not None
 
     __enter__ = acquire
 
